@@ -258,6 +258,30 @@ pub fn corr(ctx: &mut Ctx) {
             ctx.line(&req, &ans);
         }
     }
+    // ---- load: many batches of tiny images through a nested parallel loop on eight workers, without taps or delays - the
+    // shared size bound of an evaluator is then updated by several trials within nanoseconds of each other; every batch has
+    // to come back (the watchdog above reports the one that does not) ---------------------------------------------------
+    {
+        use rayon::prelude::*;
+        let pool = rayon::ThreadPoolBuilder::new().num_threads(8).build().unwrap();
+        let imgs: Vec<Case> = (0..64).map(|_| {
+            let mut c = gen_case(&mut rng, Profile::Lossless, false, 6);
+            c.opts = HOpts::from_preset(2);
+            c.opts.filter = (0..10u8).collect();
+            c.opts.fast_evaluation = false;
+            if let Ok(_) = c.opts.deflate { c.opts.deflate = Ok(6); }
+            c
+        }).collect();
+        let batches = if ctx.tier_thorough { 6000 } else { 700 };
+        let t0 = std::time::Instant::now();
+        for b in 0..batches {
+            *current.lock().unwrap() = format!("load batch {} of 64 small images, all ten filters, slow evaluation, nested parallel loop on a pool of 8 (seed {})", b, ctx.seed);
+            beat.fetch_add(1, SeqCst);
+            pool.install(|| imgs.par_iter().for_each(|c| { let _ = oxipng::optimize_from_memory(&c.input, &c.opts.to_oxi()); }));
+            st.count("load_batches");
+            if t0.elapsed().as_secs() > if ctx.tier_thorough { 240 } else { 25 } { break; }
+        }
+    }
     done.store(true, SeqCst);
     ctx.write_stats(&st);
 }
